@@ -18,6 +18,7 @@ package c10
 
 import (
 	"fmt"
+	"io"
 	"net"
 	"runtime"
 	"sync"
@@ -34,6 +35,45 @@ import (
 // holds per connection (64 KiB wire window, a few buffers) and far below the
 // announced lengths used.
 const heapBound = 24 << 20
+
+// tempTimeout is what a lower layer reports when *its* timer fires: a
+// net.Error that calls itself a timeout and temporary.  The wire keeps
+// reporting it, so code that retries such errors in a loop never gets out.
+type tempTimeout struct{}
+
+func (tempTimeout) Error() string   { return "lower layer: i/o timeout" }
+func (tempTimeout) Timeout() bool   { return true }
+func (tempTimeout) Temporary() bool { return true }
+
+// failure is the error with which a connection that is cut "with an error"
+// fails from the given stream offset on: the plain connection reset most of
+// the time, otherwise one of the other values a net.Conn can report (the
+// identity of the error must not matter for "the call in progress returns an
+// error").
+func failure(off int64) error {
+	switch off % 8 {
+	case 1:
+		return &net.OpError{Op: "read", Net: "tcp", Err: tempTimeout{}}
+	case 2:
+		return io.ErrUnexpectedEOF
+	case 3:
+		return &net.OpError{Op: "read", Net: "tcp", Err: net.ErrClosed}
+	case 5:
+		return io.ErrClosedPipe
+	case 6:
+		return fmt.Errorf("lower layer: %w", io.EOF)
+	}
+	return nil // ECONNRESET
+}
+
+// cutWithError is SetCut(off, CutRST) with the error value chosen by failure.
+func cutWithError(h *memwire.Half, off int64) {
+	if e := failure(off); e != nil {
+		h.SetCutErr(off, e)
+		return
+	}
+	h.SetCut(off, memwire.CutRST)
+}
 
 func heapNow() int64 {
 	runtime.GC()
